@@ -646,6 +646,9 @@ func checkResetReachesCarriers(c *report.Ctx) {
 			}
 		})
 		_, deferred := cl.(*ssa.Defer)
+		if !deferred && cl != nil && an.DeferOrigin(cl) {
+			deferred = true // the deferred call of an absorbed helper, placed at its exits by the normal form
+		}
 		c.Check("R-ORDER", "L/rapidcore.SandboxContext.Reset/clear-after-handle-reset", "every reset ends with clearing the rapid context (deferred Clear runs after HandleReset returned)", hr != nil && cl != nil && deferred, fpos(sr), 2, "HandleReset: %v; deferred Clear: %v", hr != nil, deferred)
 	}
 	if rc := fn(c, "L/rapid", "(*rapidContext).Clear"); rc != nil {
